@@ -368,6 +368,10 @@ def new_loader(ws, item_cap, bundle_cap, max_rows):
     return L.Loader(opts)
 
 
+KNOWN_LOADER_ATTRS = {"active_bundle", "active_bundle_length", "bundle_cache", "bundle_count", "bundle_path_summary", "item_cache",
+                      "item_id_to_bundle_id", "item_schema", "loader_indexing_path", "options"}
+
+
 class LState:
     pass
 
@@ -509,7 +513,10 @@ def lstate_canon(st):
             cached.append("-")
     return (st.fam, st.cfg, tuple(sorted(st.model.items())), tuple(sorted(st.persisted.items())), idx,
             sub.bundle_count, tuple(sorted(repr(k) for k in sub.active_bundle)), lru_keys(sub.item_cache),
-            lru_keys(sub.bundle_cache), hash(repr(cached)), st.index_only, st.disk_index)
+            lru_keys(sub.bundle_cache), hash(repr(cached)), st.index_only, st.disk_index,
+            # scalar attributes beyond GeneralLoader's own (subclass flags, or a flag added by a later version) are part of the state
+            tuple(sorted((k, repr(v)) for k, v in vars(sub).items()
+                         if k not in KNOWN_LOADER_ATTRS and isinstance(v, (bool, int, type(None))))))
 
 
 def check_trivial_histories(rep):
